@@ -761,8 +761,21 @@ public:
       typename ttbl_t::term_map_t gen_map;
       dom_var_alloc_t palloc(left._alloc, right._alloc);
 
+      // The variables that only appear in right are unconstrained in
+      // left. They get fresh terms in left so that they are compared
+      // too (otherwise, e.g., top would be included in any value).
+      {
+        std::vector<variable_t> right_vars;
+        right_vars.reserve(right._var_map.size());
+        for (auto p : right._var_map) {
+          right_vars.push_back(p.first);
+        }
+        for (auto const &v : right_vars) {
+          left.term_of_var(v);
+        }
+      }
+
       // Build up the mapping of right onto left, variable by variable.
-      // Assumption: the set of variables in left & right are common.
       for (auto p : left._var_map) {
         if (!left._ttbl.map_leq(right._ttbl, left.term_of_var(p.first),
                                 right.term_of_var(p.first), gen_map))
